@@ -18,8 +18,10 @@ import (
 )
 
 type c20Cfg struct {
-	T string `json:"t"` // strconv.Quote'd without the outer quotes
-	I string `json:"i"`
+	T   string `json:"t"` // strconv.Quote'd without the outer quotes
+	I   string `json:"i"`
+	T2  string `json:"t2,omitempty"` // template of a second Config alive at the same time
+	Two bool   `json:"two,omitempty"`
 }
 
 func c20Q(s string) string { q := strconv.Quote(s); return q[1 : len(q)-1] }
@@ -68,7 +70,13 @@ func TestVerif_C20_config_passthrough(t *testing.T) {
 		rapid.SampledFrom([]string{"", "HTTPServer", "userID", "welcome_to_go_designer"}),
 	)
 	kit.Run(t, "C20", "config-passthrough", kit.Opts{Quick: 5000, Thorough: 160000},
-		func(rt *rapid.T) c20Cfg { return c20Cfg{T: c20Q(tpl.Draw(rt, "t")), I: c20Q(ident.Draw(rt, "i"))} },
+		func(rt *rapid.T) c20Cfg {
+			c := c20Cfg{T: c20Q(tpl.Draw(rt, "t")), I: c20Q(ident.Draw(rt, "i"))}
+			if rapid.Bool().Draw(rt, "two") {
+				c.Two, c.T2 = true, c20Q(tpl.Draw(rt, "t2"))
+			}
+			return c
+		},
 		func(c c20Cfg) (v kit.Verdict) {
 			tp, id := c20U(c.T), c20U(c.I)
 			var cfg *Config
@@ -102,6 +110,29 @@ func TestVerif_C20_config_passthrough(t *testing.T) {
 			if err != nil || cfg == nil {
 				v.Classes = append(v.Classes, "unspecified:config-error")
 				return v
+			}
+			// a second Config created while the first is alive must not change the first
+			if c.Two {
+				tp2 := c20U(c.T2)
+				var cfg2 *Config
+				var err2 error
+				func() {
+					defer func() {
+						if p := recover(); p != nil {
+							v.Fail = fmt.Sprintf("NewConfig(%q) panicked: %v", tp2, p)
+						}
+					}()
+					cfg2, err2 = NewConfig(tp2)
+				}()
+				if v.Fail != "" {
+					return v
+				}
+				v.Classes = append(v.Classes, "two-configs-alive")
+				if err2 == nil && cfg2 != nil && tp2 != "" && strings.TrimSpace(tp2) != "" {
+					if d2, v2 := c20Render(tp2, id), c20Render(cfg2.NamingFormat, id); d2 != v2 {
+						return v.Failf("second config, template %q: through NewConfig (NamingFormat=%q) -> %s, directly -> %s", tp2, cfg2.NamingFormat, v2, d2)
+					}
+				}
 			}
 			direct, via := c20Render(tp, id), c20Render(cfg.NamingFormat, id)
 			v.Classes = append(v.Classes, "direct:"+strings.SplitN(direct, ":", 2)[0])
